@@ -32,7 +32,7 @@ KERNELS = {
     "C13": ["k_map_merge"],
     "C12": ["k_numeric_cmp", "k_value_eq_symmetric"],
     "C14": ["k_is_true", "k_and_or", "k_binop_short_circuit", "k_not"],
-    "C17": ["k_for_bounds"],
+    "C17": ["k_for_bounds", "k_if_dispatch"],
     "C26": ["k_str_slice", "k_str_insert", "k_str_index_length"],
     "C28": ["k_index_of", "k_set_nth", "k_append_join", "k_list_separator"],
     "C31": ["k_deg_mod"],
@@ -262,6 +262,9 @@ STRUCTURAL_PROBES = {
                            ("math.div(1cm * 1cm, 1mm)", "10cm"), ("math.div(1in, 1px) * 1px", "96px")],
     "k_map_merge": [("inspect(map-merge((c: old), (c: new, e: f)))", "(c: new, e: f)"), ("inspect(map-merge((a: 1, b: 2), (b: 3)))", "(a: 1, b: 3)"),
                     ("inspect(map-merge((y: 0), (x: 1, y: 2, z: 3)))", "(y: 2, x: 1, z: 3)"), ("inspect(map-merge((), (a: 1)))", "(a: 1)")],
+    "k_if_dispatch": [("@if () { a { b: 1 } } @else { a { b: 2 } }", "b: 1"), ("@if null { a { b: 1 } } @else { a { b: 2 } }", "b: 2"),
+                      ("@if unquote(\"\") { a { b: 1 } } @else { a { b: 2 } }", "b: 1"), ("@if 0 { a { b: 1 } } @else { a { b: 2 } }", "b: 1"),
+                      ("@if (null null) { a { b: 1 } } @else { a { b: 2 } }", "b: 1"), ("@if false { a { b: 1 } } @else if () { a { b: 3 } } @else { a { b: 2 } }", "b: 3")],
     "k_and_or": [("inspect(() or 1)", "()"), ("null or 1", "1"), ("0 and 1", "1"), ("false and 1", "false"), ("\"\" or 2", "\"\""), ("inspect((null,) or 3)", "(null,)")],
     "k_binop_short_circuit": [("false and $undefined-variable", "false"), ("true or $undefined-variable", "true")],
     "k_is_true": [("if((), 1, 2)", "1"), ("if(unquote(\"\"), 1, 2)", "1"), ("if(0, 1, 2)", "1"), ("if(null, 1, 2)", "2")],
